@@ -36,12 +36,29 @@ type lpara struct {
 	NumID int    // li: which list (1..3)
 	Fam   string // h via family, or a cell paragraph: the style of the document's style family it uses
 	Style string // filled by the writer: the style id / name used
+	// docx li: what w:ilvl's w:val says when it is not the plain decimal of Level
+	// ("" = plain; "omit" = no w:ilvl element at all, which means level 0).
+	RawLevel string
+	// li: the written level is outside the format's range 0..8 (or no number at all):
+	// the item must still be a list item with its text, in place; no level is demanded.
+	LevelUndef bool
+	// odt li: the item is written as <text:list-item> without any <text:p> (Empty only).
+	NoPara bool
 }
+
+// empty: a list item without text of its own (odt): it shows nothing, and whatever is
+// nested below it stays.
+func (p *lpara) empty() bool { return p.Kind == "li" && len(p.Runs) == 0 }
 
 type lcell struct {
 	Paras  []lpara
 	RS, CS int
 	Nested *ltable
+	// RawCS / RawRS: the text of the span attribute (docx w:gridSpan, odt
+	// number-columns-spanned / number-rows-spanned) when it is not the plain decimal of
+	// CS / RS (which is left out when 1). Either another spelling of the same number
+	// ("1" written out, "+2", "007") or, in a table marked Undef, a value outside 1..1024.
+	RawCS, RawRS string
 }
 
 type ltable struct {
@@ -51,6 +68,17 @@ type ltable struct {
 	NoGrid bool              // docx: omit w:tblGrid
 	// docx: continuation cells say w:vMerge w:val="continue" instead of the bare element
 	ExplicitContinue bool
+	// odt: the first table:table-column carries number-columns-repeated=RawRepeat and
+	// stands for RepeatN columns (the remaining C-RepeatN columns follow one by one).
+	RawRepeat string
+	RepeatN   int
+	// Undef: some span / repetition attribute of the table is outside what the format
+	// defines (0, negative, above 1024, not a number). The harness authored no grid for
+	// such a table: its text must be present, in order and in place in every view, and
+	// nothing may crash; the grid oracles do not apply (the Lean model says what the
+	// readers make of the attribute).
+	Undef bool
+	Wide  bool // a table 1024 grid columns wide / 1024 rows high (spans at the upper edge)
 }
 
 type lblock struct {
@@ -70,6 +98,7 @@ type ldoc struct {
 	NoOutline bool // the built-in heading styles are written without an outline level
 	Fam       *family
 	Grid      bool // drawn by genGridDoc: the subject is the table grid
+	Edge      bool // drawn by genEdgeDoc: numeric attributes at the edges of their range
 	ntok      int
 }
 
@@ -630,10 +659,20 @@ func genDoc(r *hx.Rng, format string) *ldoc {
 			for i := r.Range(1, 4); i > 0; i-- {
 				p := &lpara{Kind: "li", Runs: d.genRuns(r, 1), NumID: numID}
 				if format == "odt" {
-					// a nested text:list can only deepen one level at a time
+					// a nested text:list deepens one level per text:list; a list that starts
+					// below level 0 or deepens by several levels at once has list items
+					// without a paragraph of their own in between (odtList writes them)
 					p.Level = r.Range(0, lastLevel+1)
+					if r.Chance(1, 4) {
+						p.Level += r.Range(1, 2)
+					}
 					if p.Level > 3 {
 						p.Level = 3
+					}
+					if r.Chance(1, 12) {
+						// an item without text (what an editor leaves behind): shows nothing,
+						// but items nested below it are items of the list all the same
+						p.Runs, p.NoPara = nil, r.Bool()
 					}
 				} else {
 					p.Level = r.Intn(4)
@@ -785,16 +824,16 @@ func (d *ldoc) canon() string {
 	fmt.Fprintf(&b, "%s s%v n%v h%v f%v F%s|", d.Format, d.Styles, d.Numbering, d.Header, d.Footer, d.Fam.canon())
 	for _, bl := range d.Blocks {
 		if bl.P != nil {
-			fmt.Fprintf(&b, "%s/%d/%s%s/%d/%q;", bl.P.Kind, bl.P.Level, bl.P.Via, bl.P.Fam, bl.P.NumID, bl.P.wantText())
+			fmt.Fprintf(&b, "%s/%d%s%v/%s%s/%d/%q;", bl.P.Kind, bl.P.Level, bl.P.RawLevel, bl.P.NoPara, bl.P.Via, bl.P.Fam, bl.P.NumID, bl.P.wantText())
 			for _, ru := range bl.P.Runs {
 				b.WriteString(ru.Wrap + ",")
 			}
 		} else {
-			fmt.Fprintf(&b, "T%dx%d[", bl.T.R, bl.T.C)
+			fmt.Fprintf(&b, "T%dx%d%s[", bl.T.R, bl.T.C, bl.T.RawRepeat)
 			for a := 0; a < bl.T.R; a++ {
 				for c := 0; c < bl.T.C; c++ {
 					if cell := bl.T.Cells[[2]int{a, c}]; cell != nil {
-						fmt.Fprintf(&b, "%d.%d.%d.%v.%q", cell.RS, cell.CS, len(cell.Paras), cell.Nested != nil, cell.wantText())
+						fmt.Fprintf(&b, "%d%s.%d%s.%d.%v.%q", cell.RS, cell.RawRS, cell.CS, cell.RawCS, len(cell.Paras), cell.Nested != nil, cell.wantText())
 						for i := range cell.Paras {
 							b.WriteString("~" + cell.Paras[i].Fam)
 						}
